@@ -242,3 +242,15 @@ def workload(rng, k):
     return ws, targets
 
 
+
+
+def confirm_hang(ctx, req, has_hang, timeout_s=75):
+    """A hang is reported only if it is reproducible: the same request is run once more, alone, with a longer timeout
+    (a genuine deadlock is deterministic for a given fault plan; a stall on a loaded machine is not). At most three
+    confirmations per run: later hanging cases of a run are neither re-run nor reported (one replay per class suffices)."""
+    n = getattr(ctx, "_hang_confirmations", 0)
+    if n >= 3:
+        return False
+    ctx._hang_confirmations = n + 1
+    out = impl(ctx, [dict(req, timeout_s=timeout_s)])
+    return bool(out) and has_hang(out[0])
